@@ -23,6 +23,37 @@ type zzFile struct {
 
 var zzTmpDir string
 
+// fault injection (same counter as the symbolic variant)
+var (
+	zzFileOps    int
+	zzFileFailAt = -1
+	zzErrFileIO  = &zzFileError{}
+)
+
+type zzFileError struct{}
+
+func (*zzFileError) Error() string { return "zz: injected I/O error" }
+
+func zzFileFault() bool {
+	n := zzFileOps
+	zzFileOps++
+	return n == zzFileFailAt
+}
+
+func (f *zzFile) ReadAt(buf []byte, off int64) (int, error) {
+	if zzFileFault() {
+		return 0, zzErrFileIO
+	}
+	return f.File.ReadAt(buf, off)
+}
+
+func (f *zzFile) WriteAt(buf []byte, off int64) (int, error) {
+	if zzFileFault() {
+		return 0, zzErrFileIO
+	}
+	return f.File.WriteAt(buf, off)
+}
+
 func zzScale(u int) int64 { return int64(4096 / u) }
 
 func zzNewFile(blocks, u int, present []bool, data []byte) *zzFile {
